@@ -682,13 +682,16 @@ pub struct C17Case {
     pub drop_fault: bool,
     /// merge policy: 0 always, 1 a window that contains the current hour, 2 a window that does not
     pub window: u8,
+    /// the owner is dropped by a panic that unwinds through its scope (`thread::panicking()` is
+    /// true inside the drop), not by an ordinary drop
+    pub unwinding: bool,
 }
 impl C17Case {
     fn to_json(&self) -> Value {
-        json!({"engine": "vtime", "kind": "c17", "at": self.at, "inner": self.inner, "tick": self.tick, "trigger_met": self.trigger_met, "merge_never": self.merge_never, "sync_interval": self.sync_interval, "cycles": self.cycles, "drop_fault": self.drop_fault, "window": self.window})
+        json!({"engine": "vtime", "kind": "c17", "at": self.at, "inner": self.inner, "tick": self.tick, "trigger_met": self.trigger_met, "merge_never": self.merge_never, "sync_interval": self.sync_interval, "cycles": self.cycles, "drop_fault": self.drop_fault, "window": self.window, "unwinding": self.unwinding})
     }
     fn from_json(v: &Value) -> Option<C17Case> {
-        Some(C17Case { at: v["at"].as_str()?.to_string(), inner: v["inner"].as_u64()? as usize, tick: v["tick"].as_u64()? as usize, trigger_met: v["trigger_met"].as_bool()?, merge_never: v["merge_never"].as_bool()?, sync_interval: v["sync_interval"].as_bool()?, cycles: v["cycles"].as_u64()? as usize, drop_fault: v["drop_fault"].as_bool().unwrap_or(false), window: v["window"].as_u64().unwrap_or(0) as u8 })
+        Some(C17Case { at: v["at"].as_str()?.to_string(), inner: v["inner"].as_u64()? as usize, tick: v["tick"].as_u64()? as usize, trigger_met: v["trigger_met"].as_bool()?, merge_never: v["merge_never"].as_bool()?, sync_interval: v["sync_interval"].as_bool()?, cycles: v["cycles"].as_u64()? as usize, drop_fault: v["drop_fault"].as_bool().unwrap_or(false), window: v["window"].as_u64().unwrap_or(0) as u8, unwinding: v["unwinding"].as_bool().unwrap_or(false) })
     }
 }
 
@@ -821,11 +824,20 @@ pub fn c17_case(dir: &Path, c: &C17Case) -> Result<String, V> {
         let dropped = std::sync::Arc::new(AtomicBool::new(false));
         let d2 = dropped.clone();
         let drop_fault = c.drop_fault;
+        let unwinding = c.unwinding;
         let dropper = std::thread::spawn(move || {
             if drop_fault {
                 iohook::fail_all_on_this_thread(Some(libc::EIO));
             }
-            drop(kv);
+            if unwinding {
+                // the owner goes down with a panic (no message: the hook is not run)
+                let _ = std::panic::catch_unwind(std::panic::AssertUnwindSafe(move || {
+                    let _owner = kv;
+                    std::panic::resume_unwind(Box::new("the owner of the store panics"));
+                }));
+            } else {
+                drop(kv);
+            }
             iohook::fail_all_on_this_thread(None);
             d2.store(true, Ordering::SeqCst);
         });
@@ -835,14 +847,31 @@ pub fn c17_case(dir: &Path, c: &C17Case) -> Result<String, V> {
         }
         let drop_waited = !dropped.load(Ordering::SeqCst);
         let mut reopened_early: Option<(bitcask::storage::bitcask::Bitcask, bitcask::storage::bitcask::Handle)> = None;
+        let mut blocked_probe: Option<std::thread::JoinHandle<Result<(), V>>> = None;
         let mut log_len_at_drop = iohook::grec_snapshot().len();
         if !drop_waited {
-            // the drop returned while the worker is still held (or asleep): handles are closed now
-            for (what, r) in [("set", h.set(b("x"), b("y")).map(|_| ()).map_err(|e| e.to_string())), ("get", h.get(b("k")).map(|_| ()).map_err(|e| e.to_string())), ("del", h.del(b("k")).map(|_| ()).map_err(|e| e.to_string())), ("merge", h.verif_merge().map_err(|e| e.to_string())), ("sync", h.verif_sync().map_err(|e| e.to_string()))] {
-                match r {
-                    Err(e) if e.contains("closed") => {}
-                    other => return Err(("operation-on-a-closed-store-not-rejected".into(), format!("{} through a retained handle after the drop returned: {:?}", what, other))),
+            // the drop returned while the worker is still held (or asleep): handles are closed now.
+            // (On a thread of its own: a store whose drop did not wait may keep these calls waiting
+            // for the operation that is still held; what that operation then does to the directory
+            // is judged below.)
+            let h4 = h.clone();
+            let probe = std::thread::spawn(move || -> Result<(), V> {
+                for (what, r) in [("set", h4.set(b("x"), b("y")).map(|_| ()).map_err(|e| e.to_string())), ("get", h4.get(b("k")).map(|_| ()).map_err(|e| e.to_string())), ("del", h4.del(b("k")).map(|_| ()).map_err(|e| e.to_string())), ("merge", h4.verif_merge().map_err(|e| e.to_string())), ("sync", h4.verif_sync().map_err(|e| e.to_string()))] {
+                    match r {
+                        Err(e) if e.contains("closed") => {}
+                        other => return Err(("operation-on-a-closed-store-not-rejected".into(), format!("{} through a retained handle after the drop returned: {:?}", what, other))),
+                    }
                 }
+                Ok(())
+            });
+            let t0 = Instant::now();
+            while !probe.is_finished() && t0.elapsed() < Duration::from_secs(2) {
+                std::thread::sleep(Duration::from_micros(200));
+            }
+            if probe.is_finished() {
+                probe.join().map_err(|_| ("operation-on-a-closed-store-panics".to_string(), "an operation through a retained handle panicked after the drop".to_string()))??;
+            } else {
+                blocked_probe = Some(probe);
             }
             log_len_at_drop = iohook::grec_snapshot().len();
             // "the directory can be opened again at once"
@@ -871,6 +900,17 @@ pub fn c17_case(dir: &Path, c: &C17Case) -> Result<String, V> {
         iohook::vtime_hold(false);
         iohook::vtime_limit_ms(None);
         let _ = dropper.join();
+        if let Some(p) = blocked_probe.take() {
+            // the calls that were kept waiting go on now
+            let t0 = Instant::now();
+            while !p.is_finished() && t0.elapsed() < Duration::from_secs(6) {
+                std::thread::sleep(Duration::from_micros(200));
+            }
+            if !p.is_finished() {
+                return Err(("operation-on-a-closed-store-does-not-return".into(), format!("operations through a retained handle after the drop returned (held at {:?}) have not returned 6 s after everything was released", held)));
+            }
+            p.join().map_err(|_| ("operation-on-a-closed-store-panics".to_string(), "an operation through a retained handle panicked after the drop".to_string()))??;
+        }
         if let Some(u) = user.take() {
             // the operation that was in flight: it returns its result or "closed", it does not panic
             match u.join() {
@@ -996,7 +1036,7 @@ fn c17_cases(tier: Tier) -> Vec<C17Case> {
     for (trigger_met, merge_never) in [(true, false), (false, false), (false, true)] {
         for sync_interval in [false, true] {
             for tick in 1..=3usize {
-                let base = C17Case { at: String::new(), inner: 0, tick, trigger_met, merge_never, sync_interval, cycles: 0, drop_fault: false, window: 0 };
+                let base = C17Case { at: String::new(), inner: 0, tick, trigger_met, merge_never, sync_interval, cycles: 0, drop_fault: false, window: 0, unwinding: false };
                 v.push(C17Case { at: "sleeping".into(), cycles: if tick == 1 { cycles } else { 0 }, ..base.clone() });
                 // operations of other threads in flight at the drop
                 if tick == 1 && !sync_interval && (merge_never || !trigger_met) {
@@ -1038,6 +1078,9 @@ fn c17_cases(tier: Tier) -> Vec<C17Case> {
             }
         }
     }
+    // every single drop again as a drop by unwinding
+    let unwound: Vec<C17Case> = v.iter().filter(|c| c.cycles == 0 && !c.drop_fault).map(|c| C17Case { unwinding: true, ..c.clone() }).collect();
+    v.extend(unwound);
     v
 }
 
